@@ -152,6 +152,8 @@ def nat_io_faults(h):
             shutil.rmtree(d, ignore_errors=True)
 
 
+from contracts.common import lazy_sym, lazy_nat   # noqa: E402
+
 ITEMS = [
     Item('stream.setup', S.sym_stream_setup, [], 'dataflows/processors/stream.py::stream'),
     Item('stream.res_writer', S.sym_res_writer, [], 'dataflows/processors/stream.py::stream.res_writer'),
@@ -162,4 +164,10 @@ ITEMS = [
     # a checkpoint that is picked up is read completely and in order: the reader's own contract (shared with C07)
     Item('unstream.res_reader', K07.sym_res_reader, [], 'dataflows/processors/unstream.py::unstream.res_reader'),
     Item('recorded-findings', None, [('bounded', KF.nat_findings_c08)], 'dataflows/processors/stream.py::stream.func'),
+    # a step that removes a resource behind an observer reads its rows to the end: the observer upstream (a checkpoint being written, a
+    # dump) only completes that resource -- and a sequential reader only reaches the next one -- when its consumer exhausts it
+    Item('delete_resource.drains', lazy_sym('C10', 'sym_delete_resource'), [], 'dataflows/processors/delete_resource.py::delete_resource.func'),
+    # the driver: a failure while draining (CastError included) ends the run at once -- no later resource is asked for, so a
+    # checkpoint being written is never closed and renamed after a failure
+    Item('driver.safe_process', lazy_sym('base', 'sym_safe_process'), [], 'dataflows/base/datastream_processor.py::DataStreamProcessor.safe_process'),
 ]
